@@ -171,6 +171,7 @@ type State struct {
 	globalWrites []string
 	sharedWrites []string
 	frozenObjs []*Obj
+	nonFinite bool // a division by zero in the real reading was approximated by NaN
 	libFn map[*ssa.Function]bool
 	usedUF bool // the path used an uninterpreted function (its model need not replay natively)
 	known map[int]*Term // terms pinned to a constant by a taken equality on this path
@@ -791,6 +792,9 @@ func (e *Engine) finishPath(st *State, end pathEnd) {
 	}
 	if st.uncertain {
 		res.Uncertain++
+	}
+	if st.nonFinite {
+		res.Outside["division by zero in the real reading (continued with NaN as a stand-in for +-Inf/NaN; proofs on such paths are not counted)"]++
 	}
 	switch end.status {
 	case "ok":
